@@ -220,7 +220,7 @@ def decode_vs_full(case, ctx):
             'api': st.sampled_from(['linen', 'nnx']),
             'heads': st.integers(1, 2), 'feat': st.integers(1, 3),
             'T': st.integers(2, 5), 'kind': st.sampled_from(
-                ['padding', 'causal', 'random']),
+                ['padding', 'causal', 'random', 'combined', 'combined']),
             'use_bias': st.sampled_from([True, True, False]),
             'normalize_qk': st.sampled_from([False, False, True]),
             'inert_dropout': st.booleans(),
@@ -231,7 +231,9 @@ def decode_vs_full(case, ctx):
         x64=True, shrink=False,
         rule='(self or cross attention; use_bias, normalize_qk, inactive '
         'dropout on/off) paired inputs that differ only at keys/values excluded by the '
-        'mask (padding mask, causal mask, random mask with >=1 allowed key): '
+        'mask (padding mask, causal mask, random mask with >=1 allowed key, or '
+        '2-4 causal/padding/segment/random masks and None entries merged with '
+        'the API\'s combine_masks, which must equal their logical AND): '
         'attention outputs at every query position whose allowed keys are '
         'untouched are bit-equal; non-trivial = >=1 perturbed position')
 def mask_non_interference(case, ctx):
@@ -245,6 +247,34 @@ def mask_non_interference(case, ctx):
     mask = np.asarray(mask).astype(bool)
   elif case['kind'] == 'causal':
     mask = np.asarray(nn.make_causal_mask(jnp.ones((2, T)))).astype(bool)
+  elif case['kind'] == 'combined':
+    # 2-4 masks (plus None entries) merged with the API's combine_masks
+    lens = rng.integers(1, T + 1, size=2)
+    valid = np.arange(T)[None, :] < lens[:, None]
+    seg = rng.integers(0, 2, size=(2, T))
+    rand = rng.integers(0, 2, size=(2, 1, T, T)).astype(bool)
+    rand[..., np.arange(T), np.arange(T)] = True
+    pool = [np.asarray(nn.make_causal_mask(jnp.ones((2, T)))).astype(bool),
+            (valid[:, None, :, None] & valid[:, None, None, :]),
+            (seg[:, None, :, None] == seg[:, None, None, :]), rand]
+    k = int(rng.integers(2, 5))
+    parts = [pool[j] for j in rng.permutation(4)[:k]]
+    true = np.ones((2, 1, T, T), bool)
+    for q in parts:
+      true = true & q
+    given = [jnp.asarray(q) for q in parts]
+    for _ in range(int(rng.integers(0, 3))):
+      given.insert(int(rng.integers(0, len(given) + 1)), None)
+    comb = nn.combine_masks if case['api'] == 'linen' else nnx.combine_masks
+    with sut('combine_masks'):
+      mask = comb(*given, dtype=bool)
+    mask = np.asarray(mask)
+    require(mask.dtype == np.bool_ and np.array_equal(
+        np.broadcast_to(mask, true.shape), true), lambda: 'combine_masks of '
+            f'{len(parts)} masks (+{len(given) - len(parts)} None) is not '
+            'their logical AND: '
+            f'{int((np.broadcast_to(mask, true.shape) != true).sum())} entries '
+            'differ')
   else:
     mask = rng.integers(0, 2, size=(2, 1, T, T)).astype(bool)
     mask[..., np.arange(T), np.arange(T)] = True
@@ -283,6 +313,9 @@ def mask_non_interference(case, ctx):
       y2 = np.asarray(m(*args(x2), mask=jnp.asarray(mask)))
   # queries whose own input changed are excluded; all others must be equal
   unaffected = ~pert
+  if case['kind'] == 'combined':
+    # a query row with no allowed key at all is not a valid position
+    unaffected = unaffected & mask_b.any(axis=(1, 3))
   if cross:
     # queries are untouched; a query row with no allowed key at all is not a
     # valid position (its softmax is over nothing)
